@@ -388,10 +388,14 @@ func runC14(c *fw.Ctx) {
 			wg.Add(1)
 			go func(g int) {
 				defer wg.Done()
-				for rep := 0; rep < 60 && bad[g] == ""; rep++ {
+				errs := numscript.Parse(texts[g]).GetParsingErrors()
+				for rep := 0; rep < 2000 && bad[g] == ""; rep++ {
 					var got string
 					p, v, fr := fw.Catch(func() {
-						got = numscript.ParseErrorsToString(numscript.Parse(texts[g]).GetParsingErrors(), texts[g])
+						if rep%50 == 0 {
+							errs = numscript.Parse(texts[g]).GetParsingErrors()
+						}
+						got = numscript.ParseErrorsToString(errs, texts[g])
 					})
 					if p {
 						bad[g] = fmt.Sprintf("panic (%s): %v", fr, v)
@@ -402,8 +406,8 @@ func runC14(c *fw.Ctx) {
 			}(g)
 		}
 		wg.Wait()
-		c.Evals(nG * 60)
-		c.Count("concurrent_parse_and_render_runs", nG*60)
+		c.Evals(nG * 2000)
+		c.Count("concurrent_parse_and_render_runs", nG*2000)
 		for g, m := range bad {
 			if m != "" {
 				c.Violation("concurrent-render-differs", fmt.Sprintf("while %d goroutines render the errors of different texts: goroutine %d: %s", nG, g, m), map[string]any{"texts": texts, "goroutine": g})
